@@ -9,38 +9,53 @@ import GoImap.Lemmas.ClientConcCont
 /-!
   C13 — the client is safe for concurrent use. Property theorems about `GoImap.ClientConc`
   (Model/ClientConc.lean: one step per c.mutex / c.encMutex critical section or channel operation,
-  N submitters, the reader, a closer, an observer, the server end of the connection; schedules are
-  lists of thread ids; every theorem below quantifies over ALL schedules and ALL scenarios).
+  N submitters, the reader, a closer, an observer, the IDLE supervisors, the server end of the
+  connection; schedules are lists of thread ids; every theorem below quantifies over ALL schedules
+  and ALL scenarios). `fixed` = the repaired tree (main); `Legacy.*` = behaviours kept on record.
 
-  Proved, for every variant of the model (so in particular for `fixed`, the repaired tree):
-    tags_unique              two registered commands with the same tag are the same command; tags
-                             are between 1 and the counter
-    complete_at_most_once    "never twice": every command is completed at most once, an unregistered
-                             or still queued command not at all; pendingCmds has no duplicates
-    no_completion_lost       "never zero times", conservation form: a registered command is queued,
-                             or exactly one thread holds the instruction that will complete it, or it
-                             has been completed exactly once
-    complete_exactly_once    when every thread has finished and pendingCmds is empty, every registered
-                             command has been completed exactly once
-    completion_never_blocks  (variants that initialise before registering, e.g. `fixed`) the send of a
-                             completion always finds a channel that exists and whose buffer is free
-    guarded_fields           lockset discipline of the model's field-access table
-  Counterexamples of the unrepaired behaviours (`Legacy.*`), by `decide`:
-    f21_counterexample, f21_lockset_counterexample, f26_idle_counterexample,
-    f26_reorder_only_counterexample, f26_enabled_lockset_counterexample
+  Modelling conventions that the theorems rely on (each is sequential-code order of ONE goroutine,
+  stated in `exec`, validated by the enforced schedules on every run: if one were wrong the model
+  would stall where the code moves): a command id is registered once; the instructions between
+  encMutex.Lock and Unlock are executed by the lock's owner; a literal header / IDLE line is
+  flushed right after its continuation request was registered; flush() treats an *imap.Error as
+  the command's own (the command has left pendingCmds).
+
+  Proved for every variant:
+    tags_unique              two registered commands with the same tag are the same command
+    complete_at_most_once    never twice: at most one completion per command, none while queued
+    no_completion_lost       conservation: a registered command is queued, or exactly one thread
+                             holds the instruction that will complete it, or it is completed once
+    quiescent_no_pending     in every terminal state (all client threads finished) pendingCmds is
+                             empty: a queued command is always taken care of by the reader's loop,
+                             by a pending closeWithError, or by its own writer's next flush
+    complete_exactly_once    in every terminal state every registered command has been completed
+                             exactly once (no hypothesis left)
+    every_step_decreases     the measure `mu` strictly decreases on every step that changes the
+                             state: there are no infinite runs
+  Proved for variants that initialise before registering (`fixed`):
+    completion_never_blocks  the send of a completion finds an existing channel with a free buffer
+    reader_reaches_close     the reader's program is empty only after close(decCh); once the
+                             connection is closed none of its instructions is ever blocked
+    closer_never_stuck       while Close has not returned, the reader or the closer is enabled
+    no_stuck_closer          from every reachable state the reader and the closer alone make Close
+                             return within `mu` steps (all other steps only decrease `mu`): Close
+                             returns in every schedule that keeps scheduling these two threads
+  Proved for variants that register continuation requests under the encoder lock (`fixed`):
+    contreq_fifo             literal headers / IDLE lines reach the wire in the order their
+                             requests were registered, and requests are granted in that order
+  guarded_fields             lockset discipline of the model's field-access table
+  Counterexamples of the unrepaired behaviours, by `decide`: f21_counterexample,
+    f21_lockset_counterexample, f26_idle_counterexample, contreq_fifo_legacy_counterexample,
+    f26_reorder_only_counterexample, late_contreq_counterexample (0d4c77c),
+    f26_enabled_lockset_counterexample; plus the same schedules on the repaired model.
 
   Partial / not proved (validated by the oracle on every enforced schedule and -race workload):
-    * that pendingCmds is empty once every thread has finished (the hypothesis of
-      complete_exactly_once); the driver checks it on every schedule it replays ("done-but-pending")
-    * no_stuck_closer (Close returns in every schedule): proved in part — completion_never_blocks
-      (the sends of completions, on which the reader and hence Close hung in F21, are never blocked in
-      the repaired code); that the reader always reaches `close(decCh)` is not proved; the Legacy
-      counterexample is f21_counterexample (closer and reader are among the blocked threads there);
-      the oracle clause `close-never-returns` judges every run
-    * contreq_fifo for all schedules: not proved; proved only as the counterexample of the
-      unrepaired order (f26_idle_counterexample) and the hang of the naive repair
-      (f26_reorder_only_counterexample); the oracle clause `continuation-request-misrouted` judges
-      every run
+    * the statements about Close carry the disjunct "or the process has panicked" (`crashed`): that
+      the repaired model never panics (no second close of a done/msgs channel) is not proved; the
+      oracle clause `command-completed-twice` judges every run
+    * contreq_fifo does not state that requests of two different commands never coexist in the
+      queue (which makes the grant of a "+" unambiguous); that part is judged by the oracle clause
+      `continuation-request-misrouted` on every run
     * data-race freedom itself is a property of the Go memory model: Lean proves the lockset
       discipline of the table (guarded_fields), the -race workloads support that the table is complete
 -/
